@@ -495,6 +495,7 @@ package node_info
 //@   ensures [separate] taskSeparate(ni, task)   // added by helper "cache"
 //@   ensures [acceptedOwn] task.AcceptedResource == old(task.AcceptedResource) || acceptedFresh(task)   // added by helper "cache"
 //@   ensures [keyRecorded] pod_info.podKeyOf(task.Pod) in ni.PodInfos   // added by helper "cache": also when the call fails the pod is (still) recorded
+//@   ensures [recordsNonNil] old(forall k in ni.PodInfos :: ni.PodInfos[k] != nil) ==> (forall k in ni.PodInfos :: ni.PodInfos[k] != nil)   // added by helper "cache"
 //@   ensures nodeWF(ni) && podsWF(ni) && taskWF(task)
 //@ end
 
@@ -517,6 +518,7 @@ package node_info
 //@   ensures [separate] taskSeparate(ni, task)   // added by helper "cache"
 //@   ensures [acceptedOwn] task.AcceptedResource == old(task.AcceptedResource) || acceptedFresh(task)   // added by helper "cache"
 //@   ensures [keyRecorded] pod_info.podKeyOf(task.Pod) in ni.PodInfos   // added by helper "cache": also when the call fails the pod is (still) recorded
+//@   ensures [recordsNonNil] old(forall k in ni.PodInfos :: ni.PodInfos[k] != nil) ==> (forall k in ni.PodInfos :: ni.PodInfos[k] != nil)   // added by helper "cache"
 //@   ensures nodeWF(ni) && podsWF(ni) && taskWF(task)
 //@ end
 
@@ -610,7 +612,7 @@ package node_info
 //@   ensures [nothingUsed] zeroResource(result.Used) && zeroResource(result.Releasing)
 //@   ensures [noPods] (forall k common_info.PodID :: !(k in result.PodInfos) && !(k in result.LegacyMIGTasks)) && noSharedGpus(result)
 //@   ensures [shape] nodeShape(result) && fresh(result.Idle) && fresh(result.Used) && fresh(result.Releasing) && fresh(result.Allocatable) && result.Allocatable != result.Idle && result.Allocatable.scalarResources != result.Idle.scalarResources
-//@   ensures [vectors] len(result.IdleVector) == len(vectorMap.resourceNames) && len(result.UsedVector) == len(vectorMap.resourceNames) && len(result.ReleasingVector) == len(vectorMap.resourceNames) && len(result.AllocatableVector) == len(vectorMap.resourceNames)
+//@   ensures [vectors] len(result.IdleVector) == len(vectorMap.resourceNames) && len(result.UsedVector) == len(vectorMap.resourceNames) && len(result.ReleasingVector) == len(vectorMap.resourceNames) && len(result.AllocatableVector) == len(vectorMap.resourceNames) && ri.freshArray(result.AllocatableVector) && ri.freshArray(result.IdleVector)
 //@   ensures [wf] nodeGpuMemory(node) > 0 ==> nodeWF(result)
 //@   ensures [podsWF] result.PodInfos != nil && fresh(result.PodInfos) && result.LegacyMIGTasks != nil && fresh(result.LegacyMIGTasks)
 //@ end
@@ -620,8 +622,13 @@ package node_info
 // the accounting of the node did not move (cpu, memory, whole GPUs, every scalar resource incl. presence in Idle)
 //@ define acctUntouched(ni *NodeInfo) bool = ni.Used.milliCpu == old(ni.Used.milliCpu) && ni.Used.memory == old(ni.Used.memory) && ni.Used.gpus == old(ni.Used.gpus) && ni.Idle.milliCpu == old(ni.Idle.milliCpu) && ni.Idle.memory == old(ni.Idle.memory) && ni.Idle.gpus == old(ni.Idle.gpus) && ni.Releasing.milliCpu == old(ni.Releasing.milliCpu) && ni.Releasing.memory == old(ni.Releasing.memory) && ni.Releasing.gpus == old(ni.Releasing.gpus)
 //@ define acctScalarsUntouched(ni *NodeInfo) bool = forall k v1.ResourceName :: ni.Used.scalarResources[k] == old(ni.Used.scalarResources[k]) && ni.Idle.scalarResources[k] == old(ni.Idle.scalarResources[k]) && ni.Releasing.scalarResources[k] == old(ni.Releasing.scalarResources[k]) && (k in ni.Idle.scalarResources <==> old(k in ni.Idle.scalarResources))
-// the tasks of the list from index `from` on can be handed to AddTask
-//@ define tasksAddable(ni *NodeInfo, ts []*pod_info.PodInfo, from int) bool = forall i int :: from <= i && i < len(ts) ==> taskWF(ts[i]) && taskSeparate(ni, ts[i])
+// exact effect of ONE occupying pod t on the node (C14/C01: "Idle/Used/Releasing are exactly Allocatable minus/plus the
+// per-status effect of each pod added"): its request (cpu, memory, whole GPUs unless it is a reservation pod) is added
+// to Used; taken from Idle unless the pod is Pipelined; added to Releasing when it is Releasing (taken from it when
+// Pipelined).  Fractional GPU requests are charged per shared GPU (addSharedTaskResources), not stated here.
+//@ define firstCharged(ni *NodeInfo, t *pod_info.PodInfo) bool = ni.Used.milliCpu == old(ni.Used.milliCpu) + t.ResReq.milliCpu && ni.Used.memory == old(ni.Used.memory) + t.ResReq.memory && ni.Idle.milliCpu == old(ni.Idle.milliCpu) - idlePart(t, t.ResReq.milliCpu) && ni.Idle.memory == old(ni.Idle.memory) - idlePart(t, t.ResReq.memory) && ni.Releasing.milliCpu == old(ni.Releasing.milliCpu) + relPart(t, t.ResReq.milliCpu) && ni.Releasing.memory == old(ni.Releasing.memory) + relPart(t, t.ResReq.memory) && ni.Used.gpus == old(ni.Used.gpus) + nodeChargedGpus(t) && (t.ResourceReceivedType != "Fraction" ==> ni.Idle.gpus == old(ni.Idle.gpus) - idlePart(t, nodeChargedGpus(t)) && ni.Releasing.gpus == old(ni.Releasing.gpus) + relPart(t, nodeChargedGpus(t)))
+// every task of the list can be handed to AddTask (quantified over the element cells r = &ts[i]; `from` is unused)
+//@ define tasksAddable(ni *NodeInfo, ts []*pod_info.PodInfo, from int) bool = forall r **pod_info.PodInfo :: incells(r, ts) ==> taskWF(*r) && taskSeparate(ni, *r)
 
 // C14/C01/C12 (snapshot): "every snapshot charges the pod's resources ... to the selected node" /
 // "pods already occupying the node (running, terminating, bound or being bound)": every pod of the list whose status
@@ -644,15 +651,20 @@ package node_info
 //@     invariant forall i int :: 0 <= i && i <= rangeindex && pod_status.inActiveUsed(podInfos[i].Status) ==> pod_info.podKeyOf(podInfos[i].Pod) in ni.PodInfos
 //@     invariant forall k common_info.PodID :: old(k in existingPodsMap) ==> k in existingPodsMap
 //@     invariant forall i int :: 0 <= i && i <= rangeindex ==> podInfos[i].UID in existingPodsMap && existingPodsMap[podInfos[i].UID] != nil && existingPodsMap[podInfos[i].UID].UID == podInfos[i].UID
-//@     invariant (forall i int :: 0 <= i && i <= rangeindex ==> !pod_status.inActiveUsed(podInfos[i].Status)) ==> acctUntouched(ni)
-//@     invariant (forall i int :: 0 <= i && i <= rangeindex ==> !pod_status.inActiveUsed(podInfos[i].Status)) ==> acctScalarsUntouched(ni)
+//@     invariant old(forall k in ni.PodInfos :: ni.PodInfos[k] != nil) ==> (forall k in ni.PodInfos :: ni.PodInfos[k] != nil)
+//@     invariant rangeindex == 0 - 1 ==> acctUntouched(ni) && acctScalarsUntouched(ni)
+//@     invariant rangeindex == 0 && !pod_status.inActiveUsed(podInfos[0].Status) ==> acctUntouched(ni) && acctScalarsUntouched(ni)
+//@     invariant rangeindex == 0 && pod_status.inActiveUsed(podInfos[0].Status) && !old(pod_info.podKeyOf(podInfos[0].Pod) in ni.PodInfos) ==> firstCharged(ni, podInfos[0])
 //@   ensures [allReturned] len(resultPods) == len(podInfos) && (forall i int :: 0 <= i && i < len(podInfos) ==> resultPods[i] == podInfos[i].Pod)
 //@   ensures [occupyingPodsRecorded] forall i int :: 0 <= i && i < len(podInfos) && pod_status.inActiveUsed(podInfos[i].Status) ==> pod_info.podKeyOf(podInfos[i].Pod) in ni.PodInfos
-//@   ensures [othersNotCharged] (forall i int :: 0 <= i && i < len(podInfos) ==> !pod_status.inActiveUsed(podInfos[i].Status)) ==> acctUntouched(ni) && acctScalarsUntouched(ni)
+//@   ensures [noPodNothingCharged] len(podInfos) == 0 ==> acctUntouched(ni) && acctScalarsUntouched(ni)
+//@   ensures [onePodNotOccupying] len(podInfos) == 1 && !pod_status.inActiveUsed(podInfos[0].Status) ==> acctUntouched(ni) && acctScalarsUntouched(ni)
+//@   ensures [onePodOccupying] len(podInfos) == 1 && pod_status.inActiveUsed(podInfos[0].Status) && !old(pod_info.podKeyOf(podInfos[0].Pod) in ni.PodInfos) ==> firstCharged(ni, podInfos[0])
 //@   ensures [registered] forall i int :: 0 <= i && i < len(podInfos) ==> podInfos[i].UID in existingPodsMap && existingPodsMap[podInfos[i].UID] != nil && existingPodsMap[podInfos[i].UID].UID == podInfos[i].UID
 //@   ensures [registeredKept] forall k common_info.PodID :: old(k in existingPodsMap) ==> k in existingPodsMap
 //@   ensures [recordedKept] forall k common_info.PodID :: old(k in ni.PodInfos) ==> k in ni.PodInfos
 //@   ensures [acceptedKeptOrOwn] forall t *pod_info.PodInfo :: t.AcceptedResource == old(t.AcceptedResource) || acceptedFresh(t)
+//@   ensures [recordsNonNil] old(forall k in ni.PodInfos :: ni.PodInfos[k] != nil) ==> (forall k in ni.PodInfos :: ni.PodInfos[k] != nil)
 //@   ensures [wf] nodeWF(ni) && podsWF(ni)
 //@ end
 
